@@ -20,6 +20,7 @@ import (
 type end struct {
 	rw     io.ReadWriter
 	setRDL func(time.Time) error
+	setWDL func(time.Time) error
 	closeW func() error // half close of this side's write direction
 	rawIn  func() int   // bare Noise / PSK connection: raw bytes this side has taken off the wire since the data phase began
 }
@@ -104,13 +105,14 @@ type chanState struct {
 
 // writerState belongs to one writer task.
 type writerState struct {
-	started  atomic.Int32 // number of Write calls begun
-	failed   atomic.Bool  // a Write returned an error or a short count: its bytes may stop anywhere
-	accepted int
-	wErr     string
-	wErrText string
-	viol     []common.Violation
-	log      oplog
+	wTimeouts int          // Writes that returned a timeout (behaviour "deadline, then carry on")
+	started   atomic.Int32 // number of Write calls begun
+	failed    atomic.Bool  // a Write returned an error or a short count: its bytes may stop anywhere
+	accepted  int
+	wErr      string
+	wErrText  string
+	viol      []common.Violation
+	log       oplog
 }
 
 func (c *chanState) writesOf(wi int) ([]int, []time.Duration) {
@@ -317,33 +319,60 @@ func (c *chanState) writer(e *end, wi int) {
 		}
 		c.attempted.Add(int64(sz))
 		ws.started.Store(int32(i + 1))
-		s0 := simrt.Stamp()
-		n, err := e.rw.Write(buf)
-		s1 := simrt.Stamp()
-		w.progress.Add(1)
-		ws.log.addf("[%d..%d] Write #%d (%d bytes @%d) = %d, %s", s0, s1, i, sz, pos, n, errKind(err))
-		if string(buf) != string(ref) {
-			copy(buf, ref)
-			violate("C02/write-modified-buffer/"+lay, "Write(%d bytes at offset %d) changed the caller's buffer", sz, pos)
+		armed := !p.dual && p.wdl.on && p.wdl.idx == i && e.setWDL != nil
+		if armed {
+			// "deadline, then carry on": already passed, or a few virtual milliseconds ahead
+			dl := time.Now().Add(-time.Second)
+			if p.wdl.ahead > 0 {
+				dl = time.Now().Add(p.wdl.ahead)
+			}
+			e.setWDL(dl)
 		}
-		if n < 0 || n > sz {
-			ws.failed.Store(true)
-			violate("C02/write-count-out-of-range/"+lay, "Write(%d bytes at offset %d) returned n=%d", sz, pos, n)
-			ws.wErr = "violation"
-			return
-		}
-		ws.accepted += n
-		pos += n
-		if err != nil {
-			ws.failed.Store(true)
-			ws.wErr, ws.wErrText = errKind(err), err.Error()
-			return
-		}
-		if n != sz {
-			ws.failed.Store(true)
-			violate("C02/short-write-without-error/"+lay, "Write(%d bytes at offset %d) returned n=%d and a nil error", sz, pos-n, n)
-			ws.wErr = "violation"
-			return
+		rest := buf
+		for {
+			s0 := simrt.Stamp()
+			n, err := e.rw.Write(rest)
+			s1 := simrt.Stamp()
+			w.progress.Add(1)
+			ws.log.addf("[%d..%d] Write #%d (%d bytes @%d) = %d, %s", s0, s1, i, len(rest), pos, n, errKind(err))
+			if string(buf) != string(ref) {
+				copy(buf, ref)
+				violate("C02/write-modified-buffer/"+lay, "Write(%d bytes at offset %d) changed the caller's buffer", len(rest), pos)
+			}
+			if n < 0 || n > len(rest) {
+				ws.failed.Store(true)
+				violate("C02/write-count-out-of-range/"+lay, "Write(%d bytes at offset %d) returned n=%d", len(rest), pos, n)
+				ws.wErr = "violation"
+				return
+			}
+			ws.accepted += n
+			pos += n
+			if err != nil && armed && errKind(err) == "timeout" && ws.wTimeouts < 3 {
+				// the deadline struck: lift it and go on from b[n:], as the returned n says
+				ws.wTimeouts++
+				w.probe("write-deadline-then-carry-on")
+				if n > 0 {
+					w.probe("write-timed-out-part-way")
+				}
+				e.setWDL(time.Time{})
+				rest = rest[n:]
+				continue
+			}
+			if armed {
+				e.setWDL(time.Time{})
+			}
+			if err != nil {
+				ws.failed.Store(true)
+				ws.wErr, ws.wErrText = errKind(err), err.Error()
+				return
+			}
+			if n != len(rest) {
+				ws.failed.Store(true)
+				violate("C02/short-write-without-error/"+lay, "Write(%d bytes at offset %d) returned n=%d and a nil error", len(rest), pos-n, n)
+				ws.wErr = "violation"
+				return
+			}
+			break
 		}
 	}
 	if d := pauses[len(writes)]; d > 0 {
